@@ -508,7 +508,7 @@ func c02R4(a *A, r *Roles) {
 	}
 	accepted := func(b *ssa.BasicBlock) bool {
 		for _, e := range edges {
-			if edgeDominated(e[0].(*ssa.BasicBlock), e[1].(int), b) {
+			if edgeHolds(e[0].(*ssa.BasicBlock), e[1].(int), b) {
 				return true
 			}
 		}
